@@ -1,11 +1,29 @@
 (* C05 — The server binds packets to sessions by ClientID; sessions never mix (carrier layer).
    Statements over Model/CarrierLayer.v: any number of carriers, any interleaving of upstream byte
    arrivals in any fragmentation, closes at any point, packets written by KCP to any ClientID, write loops
-   taking packets, reads by KCP — [srun ops] for EVERY op sequence. Partial by design: that a session
-   moving between carriers "surfaces as exactly one accepted connection whose stream continues" depends on
-   kcp-go/smux keyed by the ClientID address; it is observed by black-box runs (C18, C01), not proved. *)
-From Coq Require Import List NArith Bool Arith.
+   taking packets, reads by KCP — [srun ops] for EVERY op sequence.
+
+   Second sentence of the property ("a session that moves between carriers — sequentially, overlapping, or after a
+   gap shorter than the one-minute retention — surfaces as exactly one accepted connection whose byte stream
+   continues"): section "moving sessions" below, over Model/CarrierTimed.v = this carrier layer composed with C17's
+   client-map model (explicit clock, queue identities, expiry) and with the DEMULTIPLEXING of kcp-go's listener
+   (sessions keyed by RemoteAddr().String() = the ClientID). What is proved: (up) for EVERY schedule, timed or not,
+   what KCP reads under one ClientID is an in-order merge of the packets decoded from each carrier's own bytes and
+   makes exactly ONE accepted connection which is input all of it in order — time plays no role upstream;
+   (down) if at every sweep the session was seen less than the retention ago, it has ONE queue for its whole life,
+   nothing WriteTo accepted for it is lost, and its carriers together are written exactly a prefix, in order, of what
+   was accepted; a queue identity is tied to one ClientID for ever, with or without expiries; (boundary) a sweep
+   removes the record iff last-seen is at least the retention old (the sweeper runs every half retention, C17:
+   between retention and 1.5 retentions either may have happened), the queued packets are then lost and the next
+   touch makes a queue with a never-used identity. NOTE what the code does beyond the retention: the accepted
+   connection is NOT affected (kcp-go's session table does not depend on the client map); only queued downstream
+   packets are dropped (KCP retransmits them) and an idle attached carrier is closed. KCP's ARQ and smux above the
+   demultiplexing ("whose byte stream continues" as bytes) remain libraries: observed through the real Accept path
+   by lib/checks/c05.py (op move) and by C01's rig, hypothesis in C01. *)
+From Coq Require Import List NArith ZArith Bool Arith Lia.
 From Snow Require Import Lib.Wire Model.Encap Proofs.EncapProofs Model.CarrierLayer Proofs.CarrierProofs Proofs.CarrierOnceProofs Proofs.CarrierFragProofs.
+From Snow Require Import Proofs.CarrierMultiProofs Proofs.PacketPathProofs Proofs.PacketPathMultiProofs.
+From Snow Require Import Model.GoHeap Model.ClientMap Proofs.QueueOutProofs Model.CarrierTimed Proofs.CarrierTimedProofs Proofs.CarrierQueueProofs.
 Import ListNotations.
 Open Scope N_scope.
 
@@ -107,3 +125,231 @@ Example C05_example :
   (exists k, nth_error (carriers s) 0 = Some k /\ k_down k = [[71]] /\ k_wire k = [129; 71]) /\
   (exists k, nth_error (carriers s) 1 = Some k /\ k_down k = [[70]]).
 Proof. vm_compute. repeat split; eexists; repeat split. Qed.
+
+(* non-vacuity of C05_no_token_no_effect / C05_wrong_token_rejected: a carrier whose first 8 bytes differ from the
+   token in one bit, followed by a ClientID and a well-formed data chunk, while a packet is waiting for that very
+   ClientID: the hypotheses of the rejection theorem hold of it, it ends up closed, nothing was queued upstream,
+   nothing was written to it, the waiting packet stays queued *)
+Example C05_bad_token_example :
+  let bad := [18; 147; 96; 93; 39; 129; 117; 244] in
+  let c1 := [1;2;3;4;5;6;7;8] in
+  let k := with_buf (bad ++ c1 ++ [130; 65; 66]) new_carrier in
+  (k_state k = K_Token /\ (8 <= length (k_buf k))%nat /\ beq (firstn 8 (k_buf k)) TOKEN = false) /\
+  let s := srun [S_WriteTo c1 [70]; S_New; S_Recv 0 (bad ++ c1 ++ [130; 65; 66]); S_Send 0; S_Recv 0 [129; 67]] in
+  recvq s = [] /\ delivered s = [] /\ q_lookup c1 (sendqs s) = [[70]] /\
+  exists k', nth_error (carriers s) 0 = Some k' /\ k_state k' = K_Dead /\ k_up k' = [] /\ k_down k' = [] /\ k_wire k' = [].
+Proof. vm_compute. repeat split; [repeat constructor|]. eexists. repeat split. Qed.
+
+(* a carrier that never gets as far as a complete token + ClientID (pre-open) has no effect either *)
+Example C05_short_header_example :
+  let s := srun [S_WriteTo [1;2;3;4;5;6;7;8] [70]; S_New; S_Recv 0 (TOKEN ++ [1;2;3;4;5;6;7]); S_Send 0] in
+  exists k, nth_error (carriers s) 0 = Some k /\ pre_open k /\ k_up k = [] /\ k_wire k = [] /\ recvq s = [].
+Proof. vm_compute. eexists. split; [reflexivity|]. split; [right; reflexivity|]. repeat split. Qed.
+
+(* ====================================================================================== moving sessions *)
+
+(* ---- upstream, any number of carriers of a session (and of other sessions), any interleaving, cuts, overlaps *)
+
+(* What carrier i queued is EXACTLY what the one-carrier read loop (token, ClientID, chunks) decodes from a prefix of
+   the bytes sent on it — all of them while it is alive, what it had read when it was closed otherwise. *)
+Theorem C05_carrier_packets_decoded : forall ops i k,
+  nth_error (carriers (srun ops)) i = Some k ->
+  exists n, (n <= length (sent_on i ops))%nat /\
+    (k_state k <> K_Dead -> n = length (sent_on i ops)) /\
+    let s := firstn n (sent_on i ops) in
+    k_up k = snd (pump (S (S (S (length s)))) (with_buf s new_carrier)) /\
+    k_cid k = k_cid (fst (pump (S (S (S (length s)))) (with_buf s new_carrier))).
+Proof. exact carrier_up_decoded. Qed.
+
+(* The time-ordered log of everything the read loops handed to QueueIncoming: restricted to one carrier it is that
+   carrier's decoded sequence; every entry carries the ClientID its carrier presented. *)
+Theorem C05_offered_per_carrier : forall ops i k,
+  nth_error (carriers (srun ops)) i = Some k -> pkts_of (filter (from_carrier i) (offered ops)) = k_up k.
+Proof. exact offered_per_carrier. Qed.
+
+Theorem C05_offered_tagged_by_presented_id : forall ops i c p,
+  In (i, c, p) (offered ops) ->
+  exists k, nth_error (carriers (srun ops)) i = Some k /\ k_cid k = c /\ ~ pre_open k /\ In p (k_up k).
+Proof. exact offered_tagged_by_presented_id. Qed.
+
+(* What KCP has read or can still read is an in-order subsequence of that log (the bounded queue drops when full),
+   and the whole log when at most queueSize packets were offered: per ClientID, an order-preserving merge of its
+   carriers' decoded sequences. *)
+Theorem C05_queue_is_subsequence_of_offered : forall ops,
+  subseq (surfaced (srun ops)) (map tag_of (offered ops)).
+Proof. exact queue_is_subsequence_of_offered. Qed.
+
+Theorem C05_queue_is_offered_when_room : forall ops,
+  (length (offered ops) <= QUEUE_SIZE)%nat -> surfaced (srun ops) = map tag_of (offered ops).
+Proof. exact queue_is_offered_when_room. Qed.
+
+Theorem C05_session_packets_in_order : forall ops c,
+  subseq (map fst (filter (tagged c) (surfaced (srun ops)))) (pkts_of (filter (entry_cid c) (offered ops))).
+Proof. exact session_packets_in_order. Qed.
+
+(* ---- exactly one accepted connection *)
+
+(* kcp-go's listener, whatever else it reads: the datagrams read under ClientID [key] that are long enough to be looked
+   at, all carrying conversation id [conv], make exactly ONE accepted connection (none if there is no such datagram);
+   it stays live and its KCP is input exactly those datagrams in the order they were read. *)
+Theorem C05_one_accepted_connection : forall key conv read,
+  (forall x, In x read -> from_key key x = true -> exists sn, conv_sn (dgram x) = Some (conv, sn)) ->
+  filter (of_key key) (listener_view read) = one_session key conv (map dgram (filter (from_key key) read)).
+Proof. exact one_accepted_connection. Qed.
+
+(* Time plays no role upstream: the timed server is, on the carriers' upstream view, the receive queue and what KCP
+   reads, the untimed server on the same arrivals and closes (plus a close where a write loop ended). *)
+Theorem C05_timed_upstream_is_untimed : forall timeout ops,
+  usim (trun timeout ops) (srun (untimes timeout tinit ops)).
+Proof. exact trun_upstream_is_srun. Qed.
+
+(* Together: for EVERY timed schedule — carriers of the session arriving and leaving at any instants, overlapping or
+   after idle gaps of ANY length, expiries or not — the session is one accepted connection whose KCP is input, in
+   order, what was read under its ClientID, and that is an in-order merge of what its carriers decoded. *)
+Theorem C05_moving_session_one_connection : forall timeout ops cid conv,
+  let t := trun timeout ops in
+  let sops := untimes timeout tinit ops in
+  (forall x, In x (tdelivered t) -> from_key cid x = true -> exists sn, conv_sn (dgram x) = Some (conv, sn)) ->
+  filter (of_key cid) (listener_view (tdelivered t)) = one_session cid conv (map dgram (filter (from_key cid) (tdelivered t))) /\
+  tdelivered t ++ trecvq t = surfaced (srun sops) /\
+  subseq (map fst (filter (tagged cid) (tdelivered t ++ trecvq t))) (pkts_of (filter (entry_cid cid) (offered sops))).
+Proof.
+  intros timeout ops cid conv t sops H. split; [apply one_accepted_connection; exact H|].
+  destruct (trun_upstream_is_srun timeout ops) as [_ [Hq Hd]]. fold t in Hq, Hd. fold sops in Hq, Hd.
+  assert (E : tdelivered t ++ trecvq t = surfaced (srun sops)) by (unfold surfaced; rewrite Hq, Hd; reflexivity).
+  split; [exact E|]. rewrite E. apply session_packets_in_order.
+Qed.
+
+(* ---- downstream with retention *)
+
+(* A queue identity belongs to ONE ClientID (key) for ever: the key WriteTo put packets into it for, the key of every
+   carrier whose write loop held it or was written a packet taken from it, the key of its record — whatever expired in
+   between. In particular a packet a carrier was written was taken from a queue of the carrier's own ClientID. *)
+Theorem C05_timed_queue_has_one_owner : forall timeout ops q b b',
+  tied (trun timeout ops) q b -> tied (trun timeout ops) q b' -> b = b'.
+Proof. intros timeout ops. apply (g_own _ (trun_ginv timeout ops)). Qed.
+
+Theorem C05_timed_downstream_only_same_id : forall timeout ops o b q p b' p',
+  In (o, b, q, p) (tcons (trun timeout ops)) -> In (b', q, p') (tacc (trun timeout ops)) -> b = b'.
+Proof.
+  intros timeout ops o b q p b' p' H H'. apply (g_own _ (trun_ginv timeout ops) q).
+  - right. left. exists o, p. exact H.
+  - left. exists p'. exact H'.
+Qed.
+
+(* ... and for every timed schedule, expiries or not: whatever carrier i was written was accepted by WriteTo for the very
+   ClientID (key) that carrier presented (the first sentence of the property, downstream, in the timed model). *)
+Theorem C05_timed_downstream_written_was_accepted : forall timeout ops i k p,
+  nth_error (tcar (trun timeout ops)) i = Some k -> In p (k_down k) ->
+  exists q, In (key_of k, q, p) (tacc (trun timeout ops)).
+Proof. exact timed_downstream_only_same_id. Qed.
+
+(* The session within the retention: if no sweep ever finds the session's record idle for the timeout, then all the
+   queue identities ever tied to the session are its one live queue, and what WriteTo accepted for it is, in order,
+   what its carriers (any number, sequential or overlapping, across idle gaps) were written or lost with a failed
+   write, followed by what is still queued: nothing is dropped on the move. *)
+Theorem C05_session_within_retention : forall timeout a ops,
+  fresh_from timeout a tinit ops ->
+  let t := trun timeout ops in
+  (forall q, tied t q a -> live (tcm t) q a) /\
+  acc_key a (tacc t) = cons_key a (tcons t) ++ out_q (tcm t) a.
+Proof. intros timeout a ops H. destruct (trun_kinv timeout a ops H) as [K1 K2]. split; assumption. Qed.
+
+(* A schedule-level sufficient condition: all clock readings of the schedule lie in a window shorter than the retention
+   (whatever the carriers do inside it: sequential, overlapping, idle gaps up to just under the retention) — then the
+   hypothesis above holds for EVERY session, so no session loses a queued packet or a carrier to an expiry. *)
+Theorem C05_window_below_retention_is_fresh : forall timeout t0 a ops,
+  Forall (in_window timeout t0) ops -> fresh_from timeout a tinit ops.
+Proof. intros timeout t0 a ops. apply window_is_fresh_from_start. Qed.
+
+Theorem C05_session_one_queue : forall timeout a ops q q',
+  fresh_from timeout a tinit ops -> tied (trun timeout ops) q a -> tied (trun timeout ops) q' a -> q = q'.
+Proof. intros timeout a ops q q' H. apply one_queue; [apply trun_ginv | apply trun_kinv; exact H]. Qed.
+
+(* ... and no carrier of the session is ever closed because its queue expired under it *)
+Theorem C05_session_never_closed_by_expiry : forall timeout a ops i k q,
+  fresh_from timeout a tinit ops ->
+  nth_error (tcar (trun timeout ops)) i = Some k -> nth_error (theld (trun timeout ops)) i = Some (Some q) -> key_of k = a ->
+  snd (q_recv q (tcm (trun timeout ops))) <> RcvClosed.
+Proof. intros timeout a ops i k q H. apply never_closed_under_carrier; [apply trun_ginv | apply trun_kinv; exact H]. Qed.
+
+(* The boundary, exactly as the code compares: a sweep keeps the record iff it was seen less than the timeout ago;
+   otherwise the queue is closed with what was left in it. (NewClientMap sweeps every timeout/2: some sweep falls
+   within [timeout, 1.5 timeout) after last-seen, C17_sweep_within_timeout_plus_period.) *)
+Theorem C05_retention_boundary : forall timeout ops now a r,
+  let t := trun timeout ops in
+  rec_of (tcm t) a = Some r ->
+  let t' := tstep timeout t (T_Sweep now) in
+  ((now - c_seen r < timeout)%Z -> rec_of (tcm t') a = Some r) /\
+  ((now - c_seen r >= timeout)%Z -> rec_of (tcm t') a = None /\ In (c_qid r, c_q r) (dead (tcm t'))).
+Proof. intros timeout ops now a r t. apply sweep_boundary. apply trun_ginv. Qed.
+
+Theorem C05_touch_refreshes_last_seen : forall timeout ops cid p now,
+  exists r, rec_of (tcm (tstep timeout (trun timeout ops) (T_WriteTo cid p now))) (cid_key cid) = Some r /\ c_seen r = now.
+Proof. intros timeout ops cid p now. apply writeto_touches. apply trun_ginv. Qed.
+
+(* After an expiry the session gets a NEW queue: an identity that no queue, carrier or log entry ever had. *)
+Theorem C05_new_queue_after_expiry : forall timeout ops cid p now,
+  let t := trun timeout ops in
+  rec_of (tcm t) (cid_key cid) = None ->
+  let t' := tstep timeout t (T_WriteTo cid p now) in
+  exists r, rec_of (tcm t') (cid_key cid) = Some r /\ c_qid r = next_qid (tcm t) /\ c_seen r = now /\ c_q r = [p] /\
+            (forall q b, tied t q b -> (q < c_qid r)%nat) /\
+            tacc t' = tacc t ++ [(cid_key cid, c_qid r, p)].
+Proof. intros timeout ops cid p now t. apply new_incarnation. apply trun_ginv. Qed.
+
+(* non-vacuity: a session (ClientID c1, conversation 7) moves from carrier 0 to carrier 1 across an idle gap of
+   59.999 s with the sweeper running in between and at its end; a packet written during the gap waits and is delivered
+   to the new carrier; the listener has one connection, input both datagrams in order. *)
+Definition c05_dgram (conv sn : N) : bytes := [conv;0;0;0; 81;0;128;0; 0;0;0;0; sn;0;0;0; 0;0;0;0; 0;0;0;0].
+Definition c05_moving : list top :=
+  let c1 := [1;2;3;4;5;6;7;8] in
+  [T_New; T_Recv 0 (TOKEN ++ c1 ++ [152] ++ c05_dgram 7 0) 0; T_WriteTo c1 [70] 5; T_Send 0 5; T_Close 0;
+   T_WriteTo c1 [71] 10; T_Sweep 30000; T_Sweep 60009;
+   T_New; T_Recv 1 (TOKEN ++ c1) 60009; T_Recv 1 ([152] ++ c05_dgram 7 1) 60010; T_Send 1 60010; T_Send 1 60011;
+   T_ReadFrom; T_ReadFrom].
+
+Example C05_moving_session_example :
+  let c1 := [1;2;3;4;5;6;7;8] in
+  let t := trun 60000 c05_moving in
+  fresh_from 60000 (cid_key c1) tinit c05_moving /\
+  (forall x, In x (tdelivered t) -> from_key c1 x = true -> exists sn, conv_sn (dgram x) = Some (7, sn)) /\
+  listener_view (tdelivered t) = [{| l_key := c1; l_conv := 7; l_in := [c05_dgram 7 0; c05_dgram 7 1]; l_live := true |}] /\
+  tcons t = [(Some 0%nat, cid_key c1, 0%nat, [70]); (Some 1%nat, cid_key c1, 0%nat, [71])] /\
+  dead (tcm t) = [].
+Proof.
+  cbn zeta. split; [apply fresh_fromb_ok; vm_compute; reflexivity|]. split.
+  - intros x Hin _. vm_compute in Hin. destruct Hin as [<-|[<-|[]]]; vm_compute; eexists; reflexivity.
+  - vm_compute. repeat split.
+Qed.
+
+(* the hypothesis of C05_window_below_retention_is_fresh is satisfiable: a schedule with an idle gap of 59.9 s *)
+Example C05_window_example :
+  Forall (in_window 60000 100) [T_New; T_Recv 0 (TOKEN ++ [1;2;3;4;5;6;7;8]) 100; T_WriteTo [1;2;3;4;5;6;7;8] [70] 101; T_Close 0;
+                                T_Sweep 30100; T_Sweep 60000; T_New; T_Recv 1 (TOKEN ++ [1;2;3;4;5;6;7;8]) 60050; T_Send 1 60099].
+Proof. repeat constructor; cbn; lia. Qed.
+
+(* ... and beyond the retention: the same session with the sweeper finding the record idle for exactly the timeout:
+   the waiting packet is lost with the closed queue, the new carrier gets a new queue (identity 1) and is written
+   only what is written afterwards — and the listener still has ONE connection. *)
+Definition c05_expired : list top :=
+  let c1 := [1;2;3;4;5;6;7;8] in
+  [T_New; T_Recv 0 (TOKEN ++ c1 ++ [152] ++ c05_dgram 7 0) 0; T_WriteTo c1 [70] 5; T_Send 0 5; T_Close 0;
+   T_WriteTo c1 [71] 10; T_Sweep 60010;
+   T_New; T_Recv 1 (TOKEN ++ c1 ++ [152] ++ c05_dgram 7 1) 60011; T_Send 1 60011; T_WriteTo c1 [72] 60012; T_Send 1 60012;
+   T_ReadFrom; T_ReadFrom].
+
+Example C05_expired_session_example :
+  let c1 := [1;2;3;4;5;6;7;8] in
+  let t := trun 60000 c05_expired in
+  ~ fresh_from 60000 (cid_key c1) tinit c05_expired /\
+  dead (tcm t) = [(0%nat, [[71]])] /\
+  tcons t = [(Some 0%nat, cid_key c1, 0%nat, [70]); (Some 1%nat, cid_key c1, 1%nat, [72])] /\
+  listener_view (tdelivered t) = [{| l_key := c1; l_conv := 7; l_in := [c05_dgram 7 0; c05_dgram 7 1]; l_live := true |}].
+Proof.
+  cbn zeta. split.
+  - intros H. cbn [fresh_from c05_expired] in H. decompose [and] H. clear H.
+    match goal with Hs : ~ stale _ _ _ (T_Sweep 60010) |- _ => apply Hs end.
+    vm_compute. eexists. split; reflexivity.
+  - vm_compute. repeat split.
+Qed.
